@@ -2179,6 +2179,48 @@ def c11h(F, R):
             R.bad(f"{m}|CfgNode", f"CfgNode::{m} does not forward to ParserNode::{m} of its node ({ekey(b)[:60]})", F.fn(wp)["sp"])
 
 
+@rule("C01", "C01.n.entry-state-meets-what-arrives-from-inside", floor=4)
+def c01n(F, R):
+    """at an entry node the published facts are the caller's guarantees (the seeded original values) met with what arrives along edges from inside the function: the seeds are never written over a map derived from in[n], and before they are published they are intersected with the out-facts of the evaluated predecessors; else `f: addi sp,sp,-4; bnez a0,f; addi sp,sp,4; ret` claims sp = sp at the return"""
+    f = _avpass_run(F)
+    setters = fact_setters(F)
+    set_out = [p for p, fld in setters.items() if fld == "reg_values_out"][0]
+    pubs = [n for n in walk(f["hir"]["value"], pats=False) if n.get("k") in ("MethodCall", "Call") and callee_of(n) == set_out]
+    pubs = [n for n in pubs if peel(call_recv_args(n)[1][0]).get("k") == "Path" and peel(call_recv_args(n)[1][0]).get("res_kind") == "Local"]
+    if not pubs:
+        raise Anchor("set_reg_values_out is not called with computed facts in AvailableValuePass::run")
+    OUT = ekey(call_recv_args(pubs[0])[1][0])
+    body = f["hir"]["value"]
+    seeds = [m for m in walk(body, pats=False) if m.get("k") == "MethodCall" and m["name"] in ("extend", "insert") and m["args"] and mentions_call(m["args"][0], "into_available_values")]
+    if not seeds:
+        R.bad("seeds", "UNEXTRACTABLE: no `<map>.extend(<set>.into_available_values())` entry seed in AvailableValuePass::run", f["sp"])
+        return
+    carriers = set()
+    for m in seeds:
+        which = next((short(callee_of(c) or "") for c in walk(m["args"][0], pats=False) if c.get("k") in ("Call", "MethodCall") and short(callee_of(c) or "").endswith("_set")), "?")
+        tgt = ekey(m["recv"]).lstrip("&*")
+        if tgt == OUT:
+            R.bad(f"seed|{which}", f"the entry seed `{which}` is written over `{OUT}`, which was derived from in[n]: on a path that comes back to the entry (a loop at the function's label) the original values are claimed again", loc(m))
+        else:
+            carriers.add(tgt)
+            R.ok(f"seed|{which}", detail=f"collected in `{tgt}`", where=loc(m))
+    for S in sorted(carriers):
+        assigns = [a for a in walk(body, pats=False) if a.get("k") == "Assign" and ekey(a["l"]) == OUT and ekey(a["r"]).lstrip("&*") == S]
+        ext = [m for m in walk(body, pats=False) if m.get("k") == "MethodCall" and m["name"] == "extend" and ekey(m["recv"]).lstrip("&*") == OUT and m["args"] and ekey(m["args"][0]).lstrip("&*") == S]
+        meets = [a for a in walk(body, pats=False) if a.get("k") == "AssignOp" and a["op"] == "BitAndAssign" and ekey(a["l"]).lstrip("&*") == S]
+        from_prevs = [a for a in meets if mentions_call(a["r"], "reg_values_out") or ekey(a["r"]).lstrip("&*") == OUT]
+        over_prevs = any(mentions_call(lp["iter"], "prevs") and any(y is a for a in from_prevs for y in walk(lp["body"], pats=False)) for lp in for_loops(body)) \
+            or any(ekey(a["r"]).lstrip("&*") == OUT for a in from_prevs)
+        if ext:
+            R.bad(f"publish|{S}", f"`{OUT}.extend({S})` writes the entry seeds over facts derived from in[n]", loc(ext[0]))
+        elif assigns and from_prevs and over_prevs:
+            R.ok(f"publish|{S}", detail=f"`{S}` is intersected with the out-facts of the predecessors, then becomes `{OUT}`", where=loc(assigns[0]))
+        elif assigns:
+            R.bad(f"publish|{S}", f"`{OUT} = {S}` publishes the caller's guarantees without meeting them with what arrives along the edges into the entry (`{S} &= &prev.reg_values_out()` over node.prevs()): a loop back to the function's label re-claims the original values", loc(assigns[0]))
+        else:
+            R.bad(f"publish|{S}", f"UNEXTRACTABLE: the seeds collected in `{S}` never reach `{OUT}`", f["sp"])
+
+
 @rule("C13", "C13.g.zero-register-operands-fold-as-zero", floor=1)
 @rule("C01", "C01.m.zero-register-operands-fold-as-zero", floor=1)
 def c01m(F, R):
